@@ -50,7 +50,7 @@ func init() {
 		runner.Part{Scenario: "simhost", Params: p("hosts", "4", "voters", "2", "memberbias", "2", "pmember", "25", "pcrash", "12", "fsyield", "300"), Share: 1},
 		// a leader cut off together with a non-voting member, deposed, repaired and elected again
 		runner.Part{Scenario: "simhost", Params: p("hosts", "4", "voters", "3", "memberbias", "1", "pmember", "20", "ppartition", "15", "groupsplit", "60", "pheal", "10", "partialheal", "60", "ptransfer", "15", "checkquorum", "0", "pcrash", "2", "readmix", "10", "steps", "2500"), Share: 3})
-	sh("C03", 90, 1200, runner.Part{Scenario: "simhost", Params: p("ppartition", "10", "pcrash", "8", "ops", "8"), Share: 2},
+	sh("C03", 120, 1200, runner.Part{Scenario: "simhost", Params: p("ppartition", "10", "pcrash", "8", "ops", "8"), Share: 2},
 		runner.Part{Scenario: "simhost", Params: p("pmember", "10", "ptransfer", "10"), Share: 1},
 		// campaigns (timeouts and leadership transfers) of replicas whose apply lags behind committed membership changes
 		runner.Part{Scenario: "simhost", Params: p("pmember", "25", "ptransfer", "30", "hosts", "4", "smyield", "300"), Share: 1},
@@ -118,7 +118,7 @@ func init() {
 		runner.Part{Scenario: "simhost", Params: p("hosts", "4", "voters", "2", "memberbias", "1", "pmember", "25", "pcrash", "8", "ppartition", "8", "quiesce", "1"), Share: 1},
 		// several replicas of an on-disk state machine shard lag at once and need streamed snapshots
 		runner.Part{Scenario: "simhost", Params: p("sm", "3", "hosts", "5", "snapshot", "5", "overhead", "0", "ppartition", "12", "groupsplit", "60", "pheal", "8", "pcrash", "4", "ops", "40"), Share: 1})
-	sh("C18", 90, 1200, runner.Part{Scenario: "simhost", Params: p("pmember", "20", "hosts", "5"), Share: 1},
+	sh("C18", 120, 1200, runner.Part{Scenario: "simhost", Params: p("pmember", "20", "hosts", "5"), Share: 1},
 		runner.Part{Scenario: "simhost", Params: p("pmember", "20", "hosts", "4", "pcrash", "5"), Share: 1},
 		// quorum sets: reads and elections while non-voting members / witnesses answer and voters are cut off
 		runner.Part{Scenario: "simhost", Params: p("hosts", "4", "voters", "3", "pmember", "15", "memberbias", "1", "ppartition", "12", "groupsplit", "60", "pheal", "5", "readmix", "60", "pcrash", "0", "pdrop", "10", "quiesce", "0"), Share: 1},
